@@ -5,7 +5,8 @@
    events (one JSON object per line, merged from per-goroutine logs by a monotonic time stamp;
    a "cs" stamp is taken before the call, a "ce" stamp after it returned):
      {"ev":"reset","id":n}
-     {"ev":"cs","g":g,"k":k,"call":c [,"w":id,"len":n]}      a call of goroutine g starts (Write: payload id/length)
+     {"ev":"cs","g":g,"k":k,"call":c [,"w":id,"len":n,"loop":b]}   a call of goroutine g starts (Write: payload id/length;
+                                                              loop: the payload is handed over in many small Writes)
      {"ev":"ce","g":g,"k":k,"call":c,"cls":class [,"runs":[..]]}   it ended (Read: the runs it returned)
      {"ev":"pw","w":id,"len":n,"k":order}                     the peer starts writing a payload
      {"ev":"pr","runs":[..]}                                  the peer's reader returned these runs
@@ -69,7 +70,7 @@ TraceNext ==
             /\ open' = open \cup {<<e.g, e.k>>}
             /\ IF e.call \in {"Write", "Write2"}
                THEN /\ e.w \notin DOMAIN writes
-                    /\ writes' = Ext(writes, e.w, [g |-> e.g, k |-> e.k, len |-> e.len])
+                    /\ writes' = Ext(writes, e.w, [g |-> e.g, k |-> e.k, len |-> e.len, loop |-> e.loop])
                     /\ pred' = Ext(pred, e.w, okW)
                ELSE UNCHANGED <<writes, pred>>
             /\ floor' = IF e.call = "Read" THEN Ext(floor, e.g, maxEnd) ELSE floor
@@ -101,7 +102,7 @@ TraceNext ==
             /\ AllEnded(open)
             /\ NoHole(claimed, sent)
             /\ (~pclosed /\ e.peerdone) => \A w \in okW : Delivered(recv, writes, w)
-            /\ IF \A w \in DOMAIN writes : WriteAtomic(recv, w) THEN TRUE
+            /\ IF \A w \in DOMAIN writes : writes[w].loop \/ WriteAtomic(recv, w) THEN TRUE
                ELSE PrintT(<<"NONATOMIC", l>>)                        \* observation only, never a rejection
             /\ UNCHANGED <<writes, pred, okW, recv, sent, claimed, floor, maxEnd, open, pclosed>>
        [] OTHER ->
@@ -114,5 +115,6 @@ Accepted == \/ TLCGet(1) = Len(Trace) + 1
             \/ PrintT(<<"HWM", TLCGet(1)>>) /\ FALSE
 
 \* observation (not a verdict): every Write arrived as one contiguous piece
-AtomicObs == \A w \in DOMAIN writes : WriteAtomic(recv, w)
+\* (a "loop" write is one payload handed over in many Write calls by the harness: not one Write)
+AtomicObs == \A w \in DOMAIN writes : writes[w].loop \/ WriteAtomic(recv, w)
 =============================================================================
